@@ -112,7 +112,7 @@ func signature(h []irhist.Call, with, without irhist.Result) string {
 
 type stats struct {
 	transitions, withObs, nontrivial, divergences, obsPanics int
-	mdRelabelled, dupSkipped, hung                           int
+	mdRelabelled, dupSkipped, hung, primed                   int
 	exact                                                    bool
 	mdExample                                                string
 	known                                                    map[string]int
@@ -175,6 +175,36 @@ func judge(rep *mbt.Report, tr irhist.Transition, st *stats, source string) {
 			rep.Fail(mbt.Failure{Signature: "C14|print twice|text differs|Func.LLString is not the function's part of Module.String",
 				What: fmt.Sprintf("history %s: %s", key, r.PartDiff), Case: c})
 			break
+		}
+	}
+	// the outcome of a printing observer does not depend on whether Type() / String() were asked before it:
+	// when a print of the history panicked, the history is replayed once more with such queries in front
+	// of every print
+	if with.ObsPanics > 0 {
+		primed := irhist.ReplayPrimed(h, st.exact)
+		st.primed++
+		if primed.Hung == "" && len(primed.PrintOutcomes) == len(with.PrintOutcomes) {
+			k := 0
+			for i := range with.PrintOutcomes {
+				if with.PrintOutcomes[i] != primed.PrintOutcomes[i] {
+					for _, c := range h {
+						if c.Op == "PrintModule" || c.Op == "PrintFunc" || c.Op == "PrintBlock" {
+							if k == i {
+								how := "panics unless Type() was asked before"
+								msg := with.PrintMsgs[i]
+								if with.PrintOutcomes[i] == "ok" {
+									how, msg = "panics once Type() was asked before", primed.PrintMsgs[i]
+								}
+								rep.Fail(mbt.Failure{Signature: "C14|observer outcome depends on an earlier query|" + c.Op + "|" + how + "|" + irhist.PanicClass(msg),
+									What: fmt.Sprintf("history %s: %s -> %s; the same call after Type() and String() of every object were asked -> %s (%s)", key, c.String(), with.PrintOutcomes[i], primed.PrintOutcomes[i], mbt.Truncate(msg, 120)),
+									Case: c2map(h, tr, source, st.exact)})
+							}
+							k++
+						}
+					}
+					break
+				}
+			}
 		}
 	}
 	// conformance of the generator: the unobserved history prints what the specification requires
@@ -268,6 +298,10 @@ func firstTextDiff(a, b irhist.Result) string {
 		}
 	}
 	return ""
+}
+
+func c2map(h []irhist.Call, tr irhist.Transition, source string, exact bool) map[string]interface{} {
+	return map[string]interface{}{"hist": h, "want": tr.Want, "source": source, "exact": exact}
 }
 
 func lastOp(h []irhist.Call) string {
@@ -467,14 +501,42 @@ func Run(tier, replay string) {
 		"NewNames": `{""}`, "SetNames": `{"y"}`, "InstRes": `{"value"}`, "TermKinds": `{"ret"}`, "Preset": `"func"`,
 		"DepKinds": `{"phi", "select", "call"}`, "Edits": `{"FillArgs", "RetypeArgs"}`, "TrackQueries": "TRUE", "StickyQueries": "TRUE",
 		"Observers": `{"PrintModule", "PrintFunc", "PrintBlock", "QueryType"}`}
+	// restructuring and identity fields (scaffold "pair": two functions, the first with a parameter, each with a finished
+	// block): a block removed / moved to another function by slice operations (it carries the IDs a print of its old
+	// function cached in it), a block appended as a detached ir.NewBlock, LocalName / GlobalName assigned as fields
+	// (the cached ID is not cleared as SetName does), IDs stored by the client (SetID)
+	restructure := map[string]string{"MaxSrc": "0", "MaxCalls": "3", "Groups": `{}`, "MaxPerGroup": "0", "MaxFuncs": "2", "MaxParams": "1",
+		"MaxBlocks": "2", "MaxInsts": "1", "NewNames": `{""}`, "SetNames": `{"y"}`, "InstRes": `{"value"}`, "TermKinds": `{"ret"}`,
+		"Preset": `"pair"`, "Edits": `{"RemoveBlock", "MoveBlock", "DetachedBlock", "SetNameField", "SetID"}`,
+		"TrackQueries": "TRUE", "StickyQueries": "TRUE", "Observers": `{"PrintModule", "PrintFunc", "QueryIdent"}`}
+	// the module's own lists edited: the last global / alias / ifunc cut off the exported slice (the unnamed definitions
+	// of the later groups and the function move up), GlobalName assigned as a field, GlobalID stored by the client
+	globalsEdit := map[string]string{"MaxSrc": "0", "MaxCalls": "4", "MaxPerGroup": "2", "MaxFuncs": "1", "MaxParams": "0", "MaxBlocks": "0",
+		"MaxInsts": "0", "NewNames": `{""}`, "SetNames": `{"y"}`, "InstRes": `{"value"}`, "TermKinds": `{"ret"}`,
+		"Edits": `{"RemoveGlobal", "SetNameField", "SetID"}`, "TrackQueries": "TRUE", "StickyQueries": "TRUE",
+		"Observers": `{"PrintModule", "QueryIdent"}`}
+	// instructions built as struct literals, one kind of every family whose Typ is cached lazily (phi, select, call, add,
+	// icmp, getelementptr, extractvalue): operands assigned afterwards (FillArgs), then the first observer is a print
+	// (Block / Func / Module) or a Type() query -- the outcome of the print must not depend on which
+	literals := map[string]string{"MaxSrc": "0", "MaxCalls": "3", "MaxPerGroup": "0", "MaxParams": "0", "MaxBlocks": "1", "MaxInsts": "1",
+		"NewNames": `{""}`, "SetNames": `{}`, "InstRes": `{}`, "TermKinds": `{"ret"}`, "Preset": `"func"`,
+		"DepKinds": `{"phi", "select", "call", "add", "icmp", "gep", "extractvalue"}`, "Edits": `{"FillArgs"}`,
+		"TrackQueries": "TRUE", "StickyQueries": "TRUE", "Observers": `{"PrintModule", "PrintFunc", "PrintBlock", "QueryType"}`}
 	if tier == "thorough" {
+		literals["MaxCalls"] = "4"
+		literals["MaxInsts"] = "2"
 		indirect["MaxCalls"] = "5"
 		inplace["MaxCalls"] = "5"
 		halfbuilt["MaxCalls"] = "5"
+		restructure["Observers"] = `{"PrintModule", "PrintFunc", "PrintBlock", "QueryIdent"}`
+		globalsEdit["MaxCalls"] = "6"
 	}
 	ems = append(ems, &emission{label: "indirect", consts: indirect})
 	ems = append(ems, &emission{label: "inplace", consts: inplace})
 	ems = append(ems, &emission{label: "halfbuilt", consts: halfbuilt})
+	ems = append(ems, &emission{label: "restructure", consts: restructure})
+	ems = append(ems, &emission{label: "globals-edit", consts: globalsEdit})
+	ems = append(ems, &emission{label: "literals", consts: literals})
 	emitAll(rep, ems, st, 25*time.Minute)
 	if st.hung >= maxHung {
 		rep.Note("replay stopped after %d histories in which a call of the library did not return within %s; the remaining transitions were not replayed", st.hung, irhist.Deadline)
@@ -536,6 +598,10 @@ func Run(tier, replay string) {
 	guard("renumber_skipped_by_count", inplace, map[string]string{"CountMemo": "TRUE", "MaxCalls": "4"}, "IRState.cfg", "NumberingCorrect,ObserverTransparent,PrintTwiceSame,PrintFuncTwiceSame,PrintFuncIsPart")
 	// Type() of an instruction without operands caches a placeholder
 	guard("placeholder_type_cached", halfbuilt, map[string]string{"EmptyType": `"void"`, "MaxCalls": "4"}, "IRState.cfg", "ObserverTransparent")
+	// InstPhi.LLString reads the field Typ (the code as it is): a struct-literal phi prints only after a Type() query
+	guard("print_reads_typ_field", literals, map[string]string{"PrintReadsTyp": "TRUE", "MaxCalls": "3"}, "IRState.cfg", "ObserverOrderFree")
+	// an unnamed local that carries a non-zero ID keeps it: a block printed in one function and moved to another
+	guard("cached_id_trusted", restructure, map[string]string{"TrustCachedID": "TRUE", "MaxCalls": "3", "Edits": `{"RemoveBlock", "MoveBlock"}`}, "IRState.cfg", "NumberingCorrect,ObserverTransparent,PrintFuncIsPart")
 	// the history class left out of the emission: operands of a struct-literal instruction retyped after a query
 	guard("literal_retyped", halfbuilt, map[string]string{"LitRetype": "TRUE", "MaxCalls": "4"}, "IRState.cfg", "ObserverTransparent")
 	if tier == "thorough" {
@@ -567,6 +633,7 @@ func Run(tier, replay string) {
 	rep.Extra["unobserved_history_differs_from_required_numbering"] = st.divergences
 	rep.Extra["same_module_metadata_labelled_differently"] = st.mdRelabelled
 	rep.Extra["transitions_not_judged_duplicate_name_in_final_state"] = st.dupSkipped
+	rep.Extra["histories_replayed_again_with_type_queries_before_every_print"] = st.primed
 	if st.mdRelabelled > 0 {
 		rep.Note("%d histories print the same module with and without observers but label the metadata definitions differently (an ID stored by a print is kept by the next one), e.g. %s", st.mdRelabelled, st.mdExample)
 	}
@@ -574,7 +641,7 @@ func Run(tier, replay string) {
 		rep.Note("%d histories print, without any observer, something else than the numbering IRState requires: judged by C08, not a C14 verdict", st.divergences)
 	}
 	rep.Exhaustive = true
-	rep.Explanation = "every transition of the thirteen IRState configurations of this tier was emitted and replayed (no sampling)"
+	rep.Explanation = "every transition of the seventeen IRState configurations of this tier was emitted and replayed (no sampling)"
 	rep.Assumptions = []string{
 		"the replay (harness/props/irhist) maps each IRState action to the public API call it stands for; instructions are add/call/store/fence, terminators ret/br/invoke/callbr/catchswitch with placeholder operands",
 		"Type(), Ident(), Operands(), Succs() are called on every object of the module at the observer's position",
